@@ -7,7 +7,8 @@ from mirsym.harness import Checker, program
 from mirsym.refsem import IR
 
 ROOTS = []        # this check uses its own dump (generic entry points instantiated by /verif/c20-harness)
-C20_ROOTS = ['c20_harness::compile_rasn', 'c20_harness::compile_ts']
+BUILDER_FNS = ['b_new', 'm_literal', 'm_path', 'm_paths', 'm_mode', 'o_literal', 'o_path', 'o_paths', 's_literal', 's_path', 's_paths', 's_mode', 'r_literal', 'r_path', 'r_paths']
+C20_ROOTS = ['c20_harness::compile_rasn', 'c20_harness::compile_ts'] + ['c20_harness::' + f for f in BUILDER_FNS]
 ASSUMPTIONS = [
     "kernel: Compiler::<B, CompilerReady>::compile, output_generated and CompileResult::fmt for B = RasnBackend and TypescriptBackend, instantiated through the 10-line crate /verif/c20-harness and executed from real MIR",
     "stubs (nondeterministic, traced): internal_compile -> arbitrary Ok(CompileResult{generated: opaque text G}) or Err; B::format_bindings -> arbitrary Ok(F) / Err; Path::is_dir -> arbitrary bool; fs::write and Stdout::write_all -> arbitrary Ok / Err(io::Error); oracle on the trace of I/O calls",
@@ -20,7 +21,7 @@ def prepare():
 
 
 def jobs(tier, seed):
-    return ['kernel-rasn', 'kernel-ts', 'native']
+    return ['kernel-rasn', 'kernel-ts', 'builder', 'native']
 
 
 # ---- stubs -------------------------------------------------------------------------------------------------------
@@ -151,6 +152,10 @@ def install_stubs():
         rt = ret_ty(f)
         return Adt(rt, ex.p.variant_index(rt, 'Ok'), [UNIT])
 
+    @model(r'^<rasn_compiler::(prelude::)?\w+(::\w+)* as std::default::Default>::default$')
+    def s_backend_default(ex, n, a, f):
+        return Opaque('backend')
+
     @model(r'^std::io::stdout$')
     def s_stdout(ex, n, a, f):
         return Opaque('Stdout')
@@ -199,7 +204,7 @@ def install_stubs():
     def s_str_as_bytes_ref(ex, n, a, f):
         return a[0]
     # these stubs must take precedence over generic models
-    for _ in range(17):
+    for _ in range(18):
         REGISTRY.insert(0, REGISTRY.pop())
 
 
@@ -388,12 +393,93 @@ def replay_file(path):
     return 1 if probs else 0
 
 
+# ---- builder state machine ---------------------------------------------------------------------------------------
+TRANS = {   # state -> [(function, kind, next state)]
+    'm': [('m_literal', 'lit', 's'), ('m_path', 'path', 's'), ('m_paths', 'paths', 's'), ('m_mode', 'mode', 'o')],
+    'o': [('o_literal', 'lit', 'r'), ('o_path', 'path', 'r'), ('o_paths', 'paths', 'r')],
+    's': [('s_literal', 'lit', 's'), ('s_path', 'path', 's'), ('s_paths', 'paths', 's'), ('s_mode', 'mode', 'r')],
+    'r': [('r_literal', 'lit', 'r'), ('r_path', 'path', 'r'), ('r_paths', 'paths', 'r')],
+}
+
+
+def job_builder(prog, chk, tier):
+    """every sequence of <= 4 (5) builder calls: the sources of the resulting compiler are exactly the sources given, in call
+    order, and the output mode is the one set - whatever the order of the calls (compile() and compile_to_string() then
+    work on the same sources)"""
+    install_stubs()
+    fns = {f: prog.find('c20_harness::' + f) for f in BUILDER_FNS}
+    depth = 4 if tier == 'quick' else 5
+    ir = IR(chk.ex)
+    om_ty = prog.inst[fns['m_mode']]['locals'][2]
+
+    def seqs(state, n):
+        if n == 0:
+            yield []
+            return
+        for t in TRANS[state]:
+            yield [t]
+            for rest in seqs(t[2], n - 1):
+                yield [t] + rest
+    all_seqs = [q for q in seqs('m', depth)]
+    for q in all_seqs:
+        names = [t[0] for t in q]
+        sig = 'C20 builder ' + ' > '.join(t[1] for t in q)
+
+        def run(ex, q=q):
+            c = ex.call(fns['b_new'], [])
+            want = []
+            k = 0
+            for fn, kind, _ in q:
+                if kind == 'lit':
+                    arg = StringV([ord(x) for x in f"L{k}"])
+                    want.append(('lit', f"L{k}"))
+                elif kind == 'path':
+                    arg = PathV(f"P{k}")
+                    want.append(('path', f"P{k}"))
+                elif kind == 'paths':
+                    arg = VecV([Cell(PathV(f"P{k}a")), Cell(PathV(f"P{k}b"))])
+                    want += [('path', f"P{k}a"), ('path', f"P{k}b")]
+                else:
+                    arg = Adt(om_ty, prog.variant_index(om_ty, 'SingleFile'), [PathV(f"OUT{k}")])
+                k += 1
+                c = ex.call(fns[fn], [c, arg])
+            return c, want
+        for r in chk.explore(run):
+            if r.kind == 'panic':
+                chk.violation(sig + ' panic', f"builder panics: {r.value[0]}", {'kind': 'kernel', 'calls': names})
+                continue
+            if r.kind != 'ok':
+                continue
+            c, want = r.value
+            chk.res.obligations += 1
+            st = ir.f(ir.get(ir.f(c), 'state'))
+            got = []
+            try:
+                srcs = ir.get(st, 'sources')
+            except Exception:
+                srcs = None
+            if srcs is not None:
+                for x in ir.items(srcs):
+                    x = ir.f(x)
+                    v = ir.f(x.fields[0])
+                    got.append(('lit', chars_repr(v.chars)) if ir.vn(x) == 'Literal' else ('path', v.name if isinstance(v, PathV) else repr(v)))
+            if got != want:
+                chk.violation(sig, f"after {' > '.join(names)} the compiler holds the sources {got}, given were {want}", {'kind': 'kernel', 'calls': names})
+            else:
+                chk.res.discharged += 1
+        chk.witness('builder sequences explored', True)
+    chk.sample({'builder_sequences': len(all_seqs), 'depth': depth})
+    chk.res.bounds['builder'] = f"every sequence of <= {depth} builder calls (typestate order)"
+
+
 def run_job(prog_main, job, tier, seed):
     path = frontend.dump(C20_ROOTS, tag='c20', harness='c20-harness')
     prog = program(path)
     chk = Checker(prog, job)
     if job.startswith('kernel-'):
         job_kernel(prog, chk, job[7:], tier)
+    elif job == 'builder':
+        job_builder(prog, chk, tier)
     else:
         job_native(prog, chk, tier)
     return chk.res
